@@ -256,10 +256,37 @@ structure Chan where
   tokenId : Nat
 deriving Repr, DecidableEq
 
-/-- `MessageChunk::new` (MSG, symmetric header, policy None). `fin`: 70 = F, 67 = C. -/
-def mkChunk (c : Chan) (seq req fin : Nat) (body : Bytes) : Bytes :=
-  [77, 83, 71, fin] ++ u32le (24 + body.length) ++ u32le c.channelId
-    ++ u32le c.tokenId ++ u32le seq ++ u32le req ++ body
+/-- chunk type of a message (`Chunker::message_type`) -/
+inductive CKind where
+  | msg | opn | clo
+deriving Repr, DecidableEq
+
+/-- `AsymmetricSecurityHeader::none()` encoded: policy uri …#None, null certificate, null thumbprint -/
+def asymNone : Bytes :=
+  [47, 0, 0, 0, 104,116,116,112,58,47,47,111,112,99,102,111,117,110,100,97,116,105,111,110,46,111,114,103,47,85,65,47,83,101,99,117,114,105,116,121,80,111,108,105,99,121,35,78,111,110,101, 255, 255, 255, 255, 255, 255, 255, 255]
+
+/-- `make_security_header`: asymmetric for OPN, the token id otherwise (policy None) -/
+def secHdr (c : Chan) : CKind → Bytes
+  | .opn => asymNone
+  | _ => u32le c.tokenId
+
+def kindCode : CKind → Bytes
+  | .msg => [77, 83, 71]
+  | .opn => [79, 80, 78]
+  | .clo => [67, 76, 79]
+
+/-- `Chunker::message_type`, read off the node id that prefixes the encoded message (four-byte
+encoding, namespace 0): OpenSecureChannel request / response 446 / 449, CloseSecureChannel 452 / 455 -/
+def msgKind : Bytes → CKind
+  | 1 :: 0 :: lo :: hi :: _ =>
+    let id := lo + 256 * hi
+    if id = 446 ∨ id = 449 then .opn else if id = 452 ∨ id = 455 then .clo else .msg
+  | _ => .msg
+
+/-- `MessageChunk::new` on a policy-None channel. `fin`: 70 = F, 67 = C. -/
+def mkChunk (c : Chan) (k : CKind) (seq req fin : Nat) (body : Bytes) : Bytes :=
+  kindCode k ++ [fin] ++ u32le (20 + (secHdr c k).length + body.length) ++ u32le c.channelId
+    ++ secHdr c k ++ u32le seq ++ u32le req ++ body
 
 inductive EncOut where
   | ok (chunks : List Bytes)
@@ -269,15 +296,15 @@ deriving Repr, DecidableEq
 
 /-- the pieces become chunks numbered `seq + i` (checked add: `sequence_number + i as u32`), the
 last one final (`F` = 70), the others intermediate (`C` = 67). -/
-def numberChunks (c : Chan) (seq req : Nat) : Nat → List Bytes → Option (List Bytes)
+def numberChunks (c : Chan) (k : CKind) (seq req : Nat) : Nat → List Bytes → Option (List Bytes)
   | _, [] => some []
   | i, p :: ps =>
     match addU32 seq i with
     | none => none
     | some s =>
-      match numberChunks c seq req (i + 1) ps with
+      match numberChunks c k seq req (i + 1) ps with
       | none => none
-      | some rest => some (mkChunk c s req (if ps.isEmpty then 70 else 67) p :: rest)
+      | some rest => some (mkChunk c k s req (if ps.isEmpty then 70 else 67) p :: rest)
 
 /-- `Chunker::encode`. `nid` = length of the encoded node id that prefixes `msg`; `clientRole`
 selects the too-large status. -/
@@ -287,10 +314,10 @@ def chunkerEncode (c : Chan) (clientRole : Bool) (seq req maxMsg maxChunk nid : 
   else if maxChunk > 0 then
     if maxChunk < 8196 then .err "BadTcpInternalError"
     else
-      match numberChunks c seq req 0 (chunksOf (maxChunk - 24) msg) with
+      match numberChunks c (msgKind msg) seq req 0 (chunksOf (maxChunk - (20 + (secHdr c (msgKind msg)).length)) msg) with
       | some cs => .ok cs
       | none => .panic
-  else .ok [mkChunk c seq req 70 msg]
+  else .ok [mkChunk c (msgKind msg) seq req 70 msg]
 
 /-! ### SendBuffer -/
 
